@@ -4,9 +4,11 @@ CONSTANTS
   RefKind = 1
   MaxQ = 1
   WithEvidence = FALSE
+  WithEvv = FALSE
   ReuseChecksCB = TRUE
   ReuseChecksCN = TRUE
   SubtractBroken = TRUE
+  EvvSigned = TRUE
 CHECK_DEADLOCK FALSE
 INVARIANT MeaningPreserved
 INVARIANT TargetAcyclic
